@@ -242,7 +242,11 @@ fn add<V: Full>(prop: &mut Property, ctx: &Ctx) {
                                 exp_res = if dev & 4 != 0 { Err("ClaimsError") } else { Ok(m.clone()) };
                             }
                         }
-                        if ev != exp_ev || r != exp_res {
+                        // only the payload decoder and the validator are constrained (how often the footer is
+                        // decoded or re-encoded is not part of the statement)
+                        let relevant = |v: &Vec<Event>| v.iter().filter(|e| matches!(e, Event::PayloadDecode(_) | Event::Validate(_))).cloned().collect::<Vec<_>>();
+                        let footer_seen = dev & 1 != 0 || ev.iter().any(|e| matches!(e, Event::FooterDecode(f) if *f == ftb));
+                        if relevant(&ev) != relevant(&exp_ev) || r != exp_res || !footer_seen {
                             o.violate(
                                 format!("{name}/{pname}/deviation/{dev}"),
                                 format!("trace/result differ from the monitor: got {:?} / {:?}, expected {:?} / {:?}", ev, r.as_ref().map(|c| c.len()), exp_ev, exp_res.as_ref().map(|c| c.len())),
